@@ -167,44 +167,41 @@ Theorem C17_format_tokens_preserved_partial : forall tab spaces final t, is_plai
   lex_reading (i_format tab spaces final t) = lex_reading t.
 Proof. exact (fun tab spaces final => preserved_partial space upper (i_format tab spaces final) (format_cview space upper tab spaces final)). Qed.
 
-(* refutations of the full statement on the faithful model (each witness is replayed on the implementation by
-   lib/c17.py: they are the witnesses of the known findings) *)
-Definition rcode (v : list vtok) : list N :=
-  flat_map (fun x => match x with VW => [0] | VC n => [1; n] | VL c => 2 :: cp c :: raw c end)%N v.
-Ltac refute w := exists (decode w); let H := fresh "H" in (intro H; apply (f_equal rcode) in H; vm_compute in H; discriminate H).
+(* refutations of the full statement on the faithful model (witnesses evaluated in Inst/Inst_C17.v; each is replayed on
+   the implementation by lib/c17.py) *)
 (* trailing blanks inside a multi-line string literal are removed *)
 Theorem C17_l001_tokens_refuted : exists t, lex_reading (l001_fix t) <> lex_reading t.
-Proof. refute ([120; 32; 39; 97; 32; 32; 10; 98; 39]%N). Qed.
+Proof. exact refuted_l001. Qed.
 (* a leading tab on the second line of a string literal becomes four spaces *)
 Theorem C17_l002_tokens_refuted : exists t, lex_reading (l002_fix t) <> lex_reading t.
-Proof. refute ([39; 97; 10; 9; 98; 39]%N). Qed.
+Proof. exact refuted_l002. Qed.
 (* a blank line inside a string literal is removed *)
 Theorem C17_l003_tokens_refuted : exists t, lex_reading (i_l003_fix t) <> lex_reading t.
-Proof. refute ([39; 97; 10; 10; 10; 98; 39]%N). Qed.
+Proof. exact refuted_l003. Qed.
 (* repeated spaces on the second line of a string literal are collapsed *)
 Theorem C17_l010_string_tokens_refuted : exists t, lex_reading (l010_fix t) <> lex_reading t.
-Proof. refute ([39; 97; 10; 98; 32; 32; 99; 39]%N). Qed.
+Proof. exact refuted_l010_string. Qed.
 (* repeated spaces on the second line of a back-quoted identifier are collapsed *)
 Theorem C17_l010_backtick_tokens_refuted : exists t, lex_reading (l010_fix t) <> lex_reading t.
-Proof. refute ([96; 97; 10; 98; 32; 32; 99; 96]%N). Qed.
+Proof. exact refuted_l010_backtick. Qed.
 (* a keyword on the second line of a string literal is upper-cased *)
 Theorem C17_l007_string_tokens_refuted : exists t, lex_reading (i_l007_fix t) <> lex_reading t.
-Proof. refute ([39; 97; 10; 115; 101; 108; 101; 99; 116; 39]%N). Qed.
+Proof. exact refuted_l007_string. Qed.
 (* a keyword on the second line of a back-quoted identifier is upper-cased *)
 Theorem C17_l007_backtick_tokens_refuted : exists t, lex_reading (i_l007_fix t) <> lex_reading t.
-Proof. refute ([96; 97; 10; 115; 101; 108; 101; 99; 116; 96]%N). Qed.
+Proof. exact refuted_l007_backtick. Qed.
 (* repeated spaces inside a block comment are collapsed *)
 Theorem C17_l010_block_comment_tokens_refuted : exists t, lex_reading (l010_fix t) <> lex_reading t.
-Proof. refute ([120; 32; 47; 42; 32; 97; 32; 32; 98; 32; 42; 47]%N). Qed.
+Proof. exact refuted_l010_block_comment. Qed.
 (* a keyword inside a block comment is upper-cased *)
 Theorem C17_l007_block_comment_tokens_refuted : exists t, lex_reading (i_l007_fix t) <> lex_reading t.
-Proof. refute ([120; 32; 47; 42; 32; 115; 101; 108; 101; 99; 116; 32; 42; 47]%N). Qed.
+Proof. exact refuted_l007_block_comment. Qed.
 (* the CLI loop applies all of the above *)
 Theorem C17_cli_tokens_refuted : exists t, lex_reading (i_cli_fix t) <> lex_reading t.
-Proof. refute ([39; 97; 32; 32; 10; 10; 10; 9; 115; 101; 108; 101; 99; 116; 32; 32; 120; 39]%N). Qed.
+Proof. exact refuted_cli. Qed.
 (* formatSQL trims the lines of a multi-line string literal *)
 Theorem C17_format_tokens_refuted : exists t, lex_reading (i_format 2 true false t) <> lex_reading t.
-Proof. refute ([39; 97; 10; 32; 32; 98; 39]%N). Qed.
+Proof. exact refuted_format. Qed.
 
 Print Assumptions C17_decode_wf.
 Print Assumptions C17_l001_fix_idempotent.
